@@ -478,3 +478,468 @@ Proof.
   destruct (number <? 65536); [|discriminate]. unfold lookup_core in L.
   apply find_some in L as [Hin _]. exact Hin.
 Qed.
+
+(** ====================================================================== *)
+(** * step_kind                                                              *)
+(** ====================================================================== *)
+
+Lemma step_kind_cls G t opcode k idx d rt rid acc :
+  step_kind G t opcode k idx d rt rid acc =
+  match classify G k with
+  | KRt => do (w, d1) <- dreq (word d); Ok (Some w, rid, acc, d1)
+  | KRid => do (w, d1) <- dreq (word d); Ok (rt, Some w, acc, d1)
+  | KCtx =>
+      if N.eqb opcode OP_CONSTANT || N.eqb opcode OP_SPEC_CONSTANT then
+        match rt with
+        | Some id => do (o, d1) <- parse_literal t id idx d; Ok (rt, rid, acc ++ [o], d1)
+        | None => Panic "rtype.expect"
+        end
+      else Panic "assert ctx"
+  | KPair =>
+      if N.eqb opcode OP_SWITCH then
+        match acc with
+        | OIdRef sel :: _ =>
+            do (o, d1) <- parse_literal t sel idx d;
+            do (w, d2) <- dreq (word d1);
+            Ok (rt, rid, acc ++ [o; OIdRef w], d2)
+        | _ => Panic "switch selector"
+        end
+      else Panic "assert switch"
+  | KSpec => do (os, d1) <- parse_spec_constant_op G idx d; Ok (rt, rid, acc ++ os, d1)
+  | KOther => do (os, d1) <- parse_operand G k d; Ok (rt, rid, acc ++ os, d1)
+  end.
+Proof.
+  unfold step_kind, classify.
+  destruct (N.eqb k (gd_k_rt G)); [reflexivity|].
+  destruct (N.eqb k (gd_k_rid G)); [reflexivity|].
+  destruct (N.eqb k (gd_k_ctx G)); [reflexivity|].
+  destruct (N.eqb k (gd_k_pairlitid G)); [reflexivity|].
+  destruct (N.eqb k (gd_k_specop G)); reflexivity.
+Qed.
+
+Lemma step_kind_ok G t opcode k idx d rt rid acc rt1 rid1 acc1 d1 :
+  step_kind G t opcode k idx d rt rid acc = Ok (rt1, rid1, acc1, d1) ->
+  Adv (kcons G k) d d1 /\
+  exists os, acc1 = acc ++ os /\ (kprod G k <= length os)%nat /\
+    (rt <> None -> rt1 <> None) /\ (classify G k = KRt -> rt1 <> None) /\
+    match classify G k with
+    | KRt | KRid => os = []
+    | KOther => is_selector_arm (arm_of G k) = true -> exists w os', os = OIdRef w :: os'
+    | _ => True
+    end.
+Proof.
+  rewrite step_kind_cls. unfold kcons, kprod. destruct (classify G k); intros H.
+  - apply bind_ok in H as ([w d2] & H1 & H2). apply dreq_ok in H1. inversion H2; subst.
+    split; [eapply word_adv; eassumption|]. exists []. rewrite app_nil_r. cbn [length].
+    repeat split; try lia; try discriminate.
+  - apply bind_ok in H as ([w d2] & H1 & H2). apply dreq_ok in H1. inversion H2; subst.
+    split; [eapply word_adv; eassumption|]. exists []. rewrite app_nil_r. cbn [length].
+    repeat split; try lia; try discriminate; auto.
+  - destruct (N.eqb opcode OP_CONSTANT || N.eqb opcode OP_SPEC_CONSTANT); [|discriminate].
+    destruct rt as [id|]; [|discriminate].
+    apply bind_ok in H as ([o d2] & H1 & H2). inversion H2; subst.
+    split; [eapply parse_literal_ok; eassumption|]. exists [o]. cbn [length].
+    repeat split; try lia; try discriminate.
+  - destruct (N.eqb opcode OP_SWITCH); [|discriminate].
+    destruct acc as [|[] acc0]; try discriminate.
+    apply bind_ok in H as ([o d2] & H1 & H). apply bind_ok in H as ([w d3] & H2 & H3).
+    apply dreq_ok in H2. inversion H3; subst. split.
+    + eapply Adv_trans0; [eapply parse_literal_ok; eassumption|].
+      eapply Adv_weaken; [|eapply word_adv; eassumption]. lia.
+    + exists [o; OIdRef w]. cbn [length]. repeat split; try lia; try discriminate; auto.
+  - apply bind_ok in H as ([os d2] & H1 & H2). inversion H2; subst.
+    destruct (spec_op_ok _ _ _ _ _ H1) as [A L]. split; [exact A|]. exists os.
+    repeat split; try lia; try discriminate; auto.
+  - apply bind_ok in H as ([os d2] & H1 & H2). inversion H2; subst.
+    destruct (parse_operand_ok _ _ _ _ _ H1) as (A & L & S). split; [exact A|]. exists os.
+    repeat split; try lia; try discriminate; auto.
+Qed.
+
+(** the abstract state describes the concrete loop state *)
+Definition Rel (b : bool) (s : selst) (rt : option N) (acc : list operand) : Prop :=
+  (b = true -> rt <> None) /\
+  match s with
+  | SEmpty => acc = []
+  | SSel => exists w r, acc = OIdRef w :: r
+  | SUnk => True
+  end.
+
+Lemma step_kind_rel G t opcode k idx d rt rid acc rt1 rid1 acc1 d1 b s :
+  Rel b s rt acc ->
+  step_kind G t opcode k idx d rt rid acc = Ok (rt1, rid1, acc1, d1) ->
+  Rel (next_rt G b k) (next_sel G s k) rt1 acc1.
+Proof.
+  intros [Rb Rs] H. apply step_kind_ok in H as (_ & os & -> & _ & Hrt & Hrt' & Hc).
+  unfold next_rt, next_sel. split.
+  - destruct (classify G k); auto.
+  - destruct s.
+    + subst acc. cbn [app]. destruct (classify G k); try exact I; try (subst os; reflexivity).
+      destruct (is_selector_arm (arm_of G k)); [|exact I].
+      destruct (Hc eq_refl) as (w & os' & ->). eauto.
+    + destruct Rs as (w & r & ->). cbn [app]. eauto.
+    + exact I.
+Qed.
+
+Lemma step_kind_np G t opcode k idx d n rt rid acc b s p :
+  table_kinds_ok G -> lim d = Some n -> kind_ok G k = true ->
+  kind_ctx_ok G opcode b s k = true -> Rel b s rt acc ->
+  step_kind G t opcode k idx d rt rid acc <> Panic p.
+Proof.
+  intros HT Hn Hk Hc [Rb Rs]. rewrite step_kind_cls. unfold kind_ok in Hk. unfold kind_ctx_ok in Hc.
+  destruct (classify G k).
+  - apply bind_np; [apply dreq_np|intros [w d1] _; discriminate].
+  - apply bind_np; [apply dreq_np|intros [w d1] _; discriminate].
+  - apply andb_prop in Hc as [Hb Ho]. rewrite Ho. destruct rt as [id|]; [|exfalso; apply (Rb Hb); reflexivity].
+    apply bind_np; [apply parse_literal_np|intros [o d1] _; discriminate].
+  - destruct s; try discriminate Hc. rewrite Hc. destruct Rs as (w & r & ->).
+    apply bind_np; [apply parse_literal_np|]. intros [o d1] _.
+    apply bind_np; [apply dreq_np|intros [w1 d2] _; discriminate].
+  - apply bind_np; [eapply spec_op_np; eassumption|intros [os d1] _; discriminate].
+  - apply bind_np; [apply parse_operand_np; exact Hk|intros [os d1] _; discriminate].
+Qed.
+
+Lemma kind_ok_cons G k : kind_ok G k = true -> (1 <= kcons G k)%nat.
+Proof.
+  unfold kind_ok, kcons. destruct (classify G k); try lia. apply arm_ok_min.
+Qed.
+
+(** a kind that was admissible stays admissible after it has been processed
+    (the `*` loop re-enters with the same kind) *)
+Lemma kind_ctx_ok_again G opc b s k : kind_ctx_ok G opc b s k = true ->
+  kind_ctx_ok G opc (next_rt G b k) (next_sel G s k) k = true.
+Proof.
+  unfold kind_ctx_ok, next_rt, next_sel. destruct (classify G k) eqn:C; try reflexivity.
+  - intros H; exact H.
+  - destruct s; try discriminate. intros H; exact H.
+Qed.
+
+(** ====================================================================== *)
+(** * parse_lops: the quantifier loop                                        *)
+(** ====================================================================== *)
+
+Lemma parse_lops_ok G t opcode idx fuel : forall lops d rt rid acc rt1 rid1 acc1 d1,
+  parse_lops G fuel t opcode lops idx d rt rid acc = Ok (rt1, rid1, acc1, d1) ->
+  Adv 0 d d1 /\ exists os, acc1 = acc ++ os /\ (min_ops G lops <= length os)%nat.
+Proof.
+  induction fuel as [|f IH]; intros lops d rt rid acc rt1 rid1 acc1 d1 H; cbn [parse_lops] in H;
+    [discriminate|].
+  destruct lops as [|[k q] r].
+  - inversion H; subst. split; [apply Adv_refl|]. exists []. rewrite app_nil_r. cbn [min_ops length].
+    split; [reflexivity|lia].
+  - destruct (limit_reached d).
+    + destruct q; [discriminate| |]; inversion H; subst; (split; [apply Adv_refl|]); exists [];
+        rewrite app_nil_r; cbn [min_ops length]; (split; [reflexivity|lia]).
+    + apply bind_ok in H as ([[[rt2 rid2] acc2] d2] & H1 & H2).
+      apply step_kind_ok in H1 as (A1 & os1 & -> & L1 & _).
+      assert (A1' : Adv 0 d d2) by (eapply Adv_weaken; [|exact A1]; lia).
+      destruct q.
+      * destruct (IH _ _ _ _ _ _ _ _ _ H2) as (A2 & os2 & -> & L2).
+        split; [eapply Adv_trans0; eassumption|]. exists (os1 ++ os2). rewrite app_assoc.
+        split; [reflexivity|]. rewrite app_length. cbn [min_ops]. lia.
+      * destruct (IH _ _ _ _ _ _ _ _ _ H2) as (A2 & os2 & -> & L2).
+        split; [eapply Adv_trans0; eassumption|]. exists (os1 ++ os2). rewrite app_assoc.
+        split; [reflexivity|]. cbn [min_ops]. lia.
+      * destruct (IH _ _ _ _ _ _ _ _ _ H2) as (A2 & os2 & -> & L2).
+        split; [eapply Adv_trans0; eassumption|]. exists (os1 ++ os2). rewrite app_assoc.
+        split; [reflexivity|]. cbn [min_ops]. lia.
+Qed.
+
+Lemma lops_ok_cons G opc b s k q r : lops_ok G opc b s ((k, q) :: r) = true ->
+  kind_ctx_ok G opc b s k = true /\ lops_ok G opc (next_rt G b k) (next_sel G s k) r = true.
+Proof. cbn [lops_ok]. intros H. apply andb_prop in H. exact H. Qed.
+
+Lemma parse_lops_np G t opcode idx p : table_kinds_ok G ->
+  forall fuel lops d n rt rid acc b s,
+  lim d = Some n -> (length lops + N.to_nat n < fuel)%nat ->
+  kinds_ok G lops = true -> star_last lops = true -> lops_ok G opcode b s lops = true ->
+  Rel b s rt acc ->
+  parse_lops G fuel t opcode lops idx d rt rid acc <> Panic p.
+Proof.
+  intros HT. induction fuel as [|f IH]; intros lops d n rt rid acc b s Hn Hf HK HS HL HR; [lia|].
+  cbn [parse_lops]. destruct lops as [|[k q] r]; [discriminate|].
+  destruct (limit_reached d); [destruct q; discriminate|].
+  pose proof HK as HK0. pose proof HL as HL0.
+  apply kinds_ok_cons in HK as [Hk Hr]. apply lops_ok_cons in HL as [Hc Hl].
+  apply bind_np; [eapply step_kind_np; eassumption|].
+  intros [[[rt1 rid1] acc1] d1] H1.
+  pose proof (step_kind_rel _ _ _ _ _ _ _ _ _ _ _ _ _ _ _ HR H1) as HR1.
+  apply step_kind_ok in H1 as (A1 & _).
+  destruct (Adv_lim_some _ _ _ _ A1 Hn) as (n1 & Hn1 & B1).
+  pose proof (kind_ok_cons _ _ Hk) as Hc1. cbn [length] in Hf.
+  destruct q.
+  - eapply IH; [exact Hn1| |exact Hr|exact HS|exact Hl|exact HR1]. lia.
+  - eapply IH; [exact Hn1| |exact Hr|exact HS|exact Hl|exact HR1]. lia.
+  - cbn [star_last] in HS. destruct r; [|discriminate].
+    eapply IH; [exact Hn1| |exact HK0|reflexivity| |exact HR1]; [cbn [length]; lia|].
+    cbn [lops_ok]. rewrite andb_true_r. apply kind_ctx_ok_again. exact Hc.
+Qed.
+
+(** ====================================================================== *)
+(** * parse_inst: N1, N2, N3, N5                                             *)
+(** ====================================================================== *)
+
+Lemma np_wf_entry G e : np_wf G = true -> In e (gd_table G) ->
+  kinds_ok G (g_operands e) = true /\ star_last (g_operands e) = true /\
+  lops_ok G (g_opcode e) false SEmpty (g_operands e) = true /\ track_ok G e = true.
+Proof.
+  unfold np_wf. rewrite forallb_forall. intros H Hin. specialize (H e Hin). unfold entry_np_ok in H.
+  apply andb_prop in H as [H H4]. apply andb_prop in H as [H H3]. apply andb_prop in H as [H1 H2].
+  auto.
+Qed.
+
+Lemma np_wf_table G : np_wf G = true -> table_kinds_ok G.
+Proof. intros H e Hin. apply (np_wf_entry G e H Hin). Qed.
+
+Lemma lookup_core_in tbl n g : lookup_core tbl n = Some g -> In g tbl.
+Proof. unfold lookup_core. intros H. apply find_some in H as [H _]. exact H. Qed.
+
+(** N1: no panic site of the instruction parser is reachable *)
+Theorem parse_inst_no_panic G : np_wf G = true ->
+  forall t idx d, (exists buf, Inv buf d) -> lim d = None ->
+  forall p, parse_inst G t idx d <> Panic p.
+Proof.
+  intros WF t idx d _ Hl p. unfold parse_inst.
+  destruct (word d) as [[w|e] d1] eqn:W; [|discriminate]. cbv zeta.
+  destruct (N.eqb ((w / 65536) mod 65536) 0); [discriminate|].
+  destruct (lookup_core (gd_table G) (w mod 65536)) as [g|] eqn:L; [|discriminate].
+  apply lookup_core_in in L. destruct (np_wf_entry G g WF L) as (HK & HS & HL & _).
+  apply bind_np.
+  - eapply parse_lops_np with (b := false) (s := SEmpty) (n := (w / 65536) mod 65536 - 1).
+    + apply np_wf_table; exact WF.
+    + reflexivity.
+    + unfold lops_fuel. cbn [set_limit lim]. lia.
+    + exact HK.
+    + exact HS.
+    + exact HL.
+    + split; [discriminate|reflexivity].
+  - intros [[[rt rid] ops] d3] _. destruct (limit_reached d3); discriminate.
+Qed.
+
+(** what a successfully parsed instruction looks like *)
+Lemma parse_inst_ok G t idx d i d1 : parse_inst G t idx d = Ok (i, d1) ->
+  exists w d0 g d3,
+    word d = (inl w, d0) /\ lookup_core (gd_table G) (w mod 65536) = Some g /\
+    i_opcode i = g_opcode g /\ (min_ops G (g_operands g) <= length (i_ops i))%nat /\
+    Adv 0 (set_limit d0 ((w / 65536) mod 65536 - 1)) d3 /\ d1 = clear_limit d3.
+Proof.
+  unfold parse_inst. destruct (word d) as [[w|e] d0] eqn:W; [|discriminate]. cbv zeta.
+  destruct (N.eqb ((w / 65536) mod 65536) 0); [discriminate|].
+  destruct (lookup_core (gd_table G) (w mod 65536)) as [g|] eqn:L; [|discriminate].
+  intros H. apply bind_ok in H as ([[[rt rid] ops] d3] & H1 & H2).
+  destruct (limit_reached d3); [|discriminate]. inversion H2; subst.
+  apply parse_lops_ok in H1 as (A & os & -> & Lo). cbn [app] in *.
+  exists w, d0, g, d3. cbn [i_opcode i_ops]. auto 10.
+Qed.
+
+(** N2: every parsed instruction consumes at least one word, stays unlimited *)
+Theorem progress G t idx d i d1 : parse_inst G t idx d = Ok (i, d1) -> lim d = None ->
+  lim d1 = None /\ off d + 4 <= off d1 /\ (length (rest d1) + 4 <= length (rest d))%nat /\
+  exists pre, rest d = pre ++ rest d1.
+Proof.
+  intros H _. apply parse_inst_ok in H as (w & d0 & g & d3 & W & _ & _ & _ & A & ->).
+  apply word_adv in W. destruct W as (_ & _ & p1 & R1 & O1 & K1).
+  destruct A as (_ & _ & p2 & R2 & O2 & _). cbn [set_limit clear_limit rest off lim] in *.
+  split; [reflexivity|]. split; [lia|]. split.
+  - rewrite R1, R2, !app_length. lia.
+  - exists (p1 ++ p2). rewrite <- app_assoc, <- R2. exact R1.
+Qed.
+
+(** N3: the type tracker never indexes outside the operands of a parsed instruction *)
+Theorem track_total G : np_wf G = true -> forall t t' idx d i d1,
+  parse_inst G t idx d = Ok (i, d1) -> track G t' i <> None.
+Proof.
+  intros WF t t' idx d i d1 H.
+  apply parse_inst_ok in H as (w & d0 & g & d3 & _ & L & Ho & Lo & _).
+  apply lookup_core_in in L. destruct (np_wf_entry G g WF L) as (_ & _ & _ & HT).
+  unfold track_ok in HT. apply andb_prop in HT as [T1 T2]. rewrite <- Ho in T1, T2.
+  unfold track. destruct (i_rid i) as [rid|]; [|discriminate].
+  destruct (gd_is_type G (i_opcode i)).
+  - destruct (N.eqb (i_opcode i) OP_TYPE_INT).
+    + destruct (i_ops i) as [|o1 [|o2 r]]; cbn [length] in Lo; [lia|lia|].
+      destruct o1; try discriminate. destruct o2; discriminate.
+    + destruct (N.eqb (i_opcode i) OP_TYPE_FLOAT); [|discriminate].
+      destruct (i_ops i) as [|o1 r]; cbn [length] in Lo; [lia|]. destruct o1; discriminate.
+  - destruct (i_rtype i) as [rt|]; [|discriminate]. destruct (resolve t' rt); discriminate.
+Qed.
+
+(** N5: reads stay inside the buffer *)
+Theorem parse_inst_inv G t idx buf d i d1 : Inv buf d -> parse_inst G t idx d = Ok (i, d1) -> Inv buf d1.
+Proof.
+  intros HI H. apply parse_inst_ok in H as (w & d0 & g & d3 & W & _ & _ & _ & A & ->).
+  apply word_adv in W. pose proof (Adv_inv _ buf _ _ W HI) as I0.
+  assert (I1 : Inv buf (set_limit d0 ((w / 65536) mod 65536 - 1))) by exact I0.
+  pose proof (Adv_inv _ buf _ _ A I1) as I3. exact I3.
+Qed.
+
+(** N3 in the literal form of the specification *)
+Corollary track_total_same G t idx d i d1 : np_wf G = true ->
+  parse_inst G t idx d = Ok (i, d1) -> track G t i <> None.
+Proof. intros WF H. eapply track_total; eassumption. Qed.
+
+(** ====================================================================== *)
+(** * header and the parse loop: N4                                          *)
+(** ====================================================================== *)
+
+Lemma words_adv n : forall d ws d', words n d = (inl ws, d') -> Adv n d d'.
+Proof.
+  induction n as [|n IH]; intros d ws d' H; cbn [words] in H.
+  - inversion H; subst. apply Adv_refl.
+  - destruct (word d) as [[w|e] d1] eqn:W; [|discriminate].
+    destruct (words n d1) as [[ws1|e] d2] eqn:Ws; [|discriminate]. inversion H; subst.
+    change (S n) with (1 + n)%nat. eapply Adv_trans; [eapply word_adv; exact W|eapply IH; exact Ws].
+Qed.
+
+Lemma parse_header_ok d h d1 : parse_header d = Ok (h, d1) -> Adv 5 d d1.
+Proof.
+  unfold parse_header. destruct (words 5 d) as [[ws|e] d2] eqn:W; [|discriminate].
+  apply words_adv in W. destruct ws as [|w0 [|w1 [|w2 [|w3 [|w4 [|w5 r]]]]]]; try discriminate.
+  destruct (N.eqb w0 MAGIC); [|destruct (N.eqb w0 MAGIC_SWAPPED); discriminate].
+  intros H; inversion H; subst. exact W.
+Qed.
+
+(** `words 5` returns exactly five words: Panic "words(5)" is unreachable *)
+Lemma parse_header_np d p : parse_header d <> Panic p.
+Proof.
+  unfold parse_header. destruct (words 5 d) as [[ws|e] d2] eqn:W; [|discriminate].
+  apply words_ok in W as (L & _).
+  destruct ws as [|w0 [|w1 [|w2 [|w3 [|w4 [|w5 r]]]]]]; try discriminate L.
+  destruct (N.eqb w0 MAGIC); [discriminate|]. destruct (N.eqb w0 MAGIC_SWAPPED); discriminate.
+Qed.
+
+Lemma consume_np a p : consume a <> Panic p.
+Proof. destruct a; discriminate. Qed.
+
+Lemma parse_loop_np {St} G (C : consumer St) p : np_wf G = true ->
+  forall fuel t idx d s, lim d = None -> (length (rest d) < fuel)%nat ->
+  snd (parse_loop G C fuel t idx d s) <> Panic p.
+Proof.
+  intros WF. induction fuel as [|f IH]; intros t idx d s Hl Hf; [lia|]. cbn [parse_loop].
+  destruct (parse_inst G t (idx + 1) d) as [[i d1]|e|p'] eqn:PI.
+  - destruct (track G t i) as [t1|] eqn:T; [|exfalso; eapply track_total; eassumption].
+    destruct (progress _ _ _ _ _ _ PI Hl) as (Hl1 & _ & Hlen & _).
+    destruct (c_inst C s i) as [s1 a]. destruct a; cbn [consume snd]; try discriminate.
+    apply IH; [exact Hl1|lia].
+  - destruct e; cbn [snd]; try discriminate.
+    destruct (c_fin C s) as [s1 a]. cbn [snd]. apply consume_np.
+  - exfalso. eapply parse_inst_no_panic; [exact WF| |exact Hl|exact PI].
+    exists (repeat 0 (N.to_nat (off d)) ++ rest d), (repeat 0 (N.to_nat (off d))).
+    split; [reflexivity|]. rewrite repeat_length. lia.
+Qed.
+
+(** N4: the whole parser never panics, for every consumer and every byte string *)
+Theorem parse_no_panic G : np_wf G = true ->
+  forall St (C : consumer St) bytes s0, forall p, snd (parse G C bytes s0) <> Panic p.
+Proof.
+  intros WF St C bytes s0 p. unfold parse.
+  destruct (c_init C s0) as [s1 a]. destruct a; cbn [consume snd]; try discriminate.
+  destruct (parse_header (mkdec bytes)) as [[h d1]|e|p'] eqn:PH; cbn [snd]; try discriminate.
+  - destruct (c_header C s1 h) as [s2 a2]. destruct a2; cbn [consume snd]; try discriminate.
+    apply parse_header_ok in PH as (_ & Hn & pre & R & _ & K). cbn [mkdec rest lim] in *.
+    apply parse_loop_np; [exact WF|exact (Hn eq_refl)|].
+    rewrite R, app_length. lia.
+  - exfalso. eapply parse_header_np; exact PH.
+Qed.
+
+(** ====================================================================== *)
+(** * N5: every decoder state at the head of the loop lies inside the buffer *)
+(** ====================================================================== *)
+
+Inductive reached (G : gdata) (bytes : list N) : dec -> Prop :=
+| reached_header h d : parse_header (mkdec bytes) = Ok (h, d) -> reached G bytes d
+| reached_inst t idx d i d1 : reached G bytes d -> parse_inst G t idx d = Ok (i, d1) -> reached G bytes d1.
+
+Theorem reads_stay_in_buffer G bytes d : reached G bytes d ->
+  Inv bytes d /\ lim d = None /\ off d <= N.of_nat (length bytes).
+Proof.
+  intros H. assert (HH : Inv bytes d /\ lim d = None).
+  { induction H as [h d PH|t idx d i d1 _ [IHI IHl] PI].
+    - apply parse_header_ok in PH. split.
+      + eapply Adv_inv; [exact PH|apply Inv_init].
+      + destruct PH as (_ & Hn & _). apply Hn. reflexivity.
+    - split; [eapply parse_inst_inv; eassumption|]. eapply progress; eassumption. }
+  destruct HH as [HI Hl]. split; [exact HI|]. split; [exact Hl|]. apply Inv_off_le. exact HI.
+Qed.
+
+(** ====================================================================== *)
+(** * N6: at most length/4 instruction callbacks                             *)
+(** ====================================================================== *)
+
+Section Callbacks.
+Context {St : Type} (G : gdata) (C : consumer St) (m : St -> nat).
+Hypothesis Hinit : forall s, (m (fst (c_init C s)) <= m s)%nat.
+Hypothesis Hfin : forall s, (m (fst (c_fin C s)) <= m s)%nat.
+Hypothesis Hheader : forall s h, (m (fst (c_header C s h)) <= m s)%nat.
+Hypothesis Hinst : forall s i, (m (fst (c_inst C s i)) <= S (m s))%nat.
+
+Lemma parse_loop_calls : forall fuel t idx d s, lim d = None ->
+  (4 * m (fst (parse_loop G C fuel t idx d s)) <= 4 * m s + length (rest d))%nat.
+Proof.
+  induction fuel as [|f IH]; intros t idx d s Hl; cbn [parse_loop]; [cbn [fst]; lia|].
+  destruct (parse_inst G t (idx + 1) d) as [[i d1]|e|p'] eqn:PI.
+  - destruct (track G t i) as [t1|]; [|cbn [fst]; lia].
+    destruct (progress _ _ _ _ _ _ PI Hl) as (Hl1 & _ & Hlen & _).
+    pose proof (Hinst s i) as Hi. destruct (c_inst C s i) as [s1 a]. cbn [fst] in Hi.
+    destruct a; cbn [consume fst]; try lia.
+    specialize (IH t1 (idx + 1) d1 s1 Hl1). lia.
+  - destruct e; cbn [fst]; try lia.
+    pose proof (Hfin s) as Hf. destruct (c_fin C s) as [s1 a]. cbn [fst] in *. lia.
+  - cbn [fst]. lia.
+Qed.
+
+Theorem callbacks_bounded bytes s0 :
+  (4 * m (fst (parse G C bytes s0)) <= 4 * m s0 + length bytes)%nat.
+Proof.
+  unfold parse. pose proof (Hinit s0) as Hi. destruct (c_init C s0) as [s1 a]. cbn [fst] in Hi.
+  destruct a; cbn [consume fst]; try lia.
+  destruct (parse_header (mkdec bytes)) as [[h d1]|e|p'] eqn:PH; cbn [fst]; try lia.
+  pose proof (Hheader s1 h) as Hh. destruct (c_header C s1 h) as [s2 a2]. cbn [fst] in Hh.
+  destruct a2; cbn [consume fst]; try lia.
+  apply parse_header_ok in PH as (_ & Hn & pre & R & _ & K). cbn [mkdec rest lim] in *.
+  pose proof (parse_loop_calls (S (length bytes)) [] 0 d1 s2 (Hn eq_refl)) as HL.
+  assert (HB : length bytes = (length pre + length (rest d1))%nat) by (rewrite R at 1; apply app_length).
+  lia.
+Qed.
+End Callbacks.
+
+(** the generic counting wrapper: counts the [c_inst] callbacks of any consumer *)
+Definition counting {St} (C : consumer St) : consumer (St * nat) :=
+  {| c_init := fun sn => (fst (c_init C (fst sn)), snd sn, snd (c_init C (fst sn)));
+     c_fin := fun sn => (fst (c_fin C (fst sn)), snd sn, snd (c_fin C (fst sn)));
+     c_header := fun sn h => (fst (c_header C (fst sn) h), snd sn, snd (c_header C (fst sn) h));
+     c_inst := fun sn i => (fst (c_inst C (fst sn) i), S (snd sn), snd (c_inst C (fst sn) i)) |}.
+
+(** N6: the number of instruction callbacks is at most length bytes / 4 *)
+Theorem inst_callbacks_bounded {St} G (C : consumer St) bytes s0 :
+  (snd (fst (parse G (counting C) bytes (s0, O))) <= length bytes / 4)%nat.
+Proof.
+  pose proof (callbacks_bounded G (counting C) snd) as H. cbn [counting c_init c_fin c_header c_inst fst snd] in H.
+  specialize (H (fun _ => le_n _) (fun _ => le_n _) (fun _ _ => le_n _) (fun _ _ => le_n _) bytes (s0, O)).
+  cbn [snd] in H. apply Nat.div_le_lower_bound; lia.
+Qed.
+
+(** the same for the recording consumer of the harness *)
+Theorem recorded_insts_bounded G script bytes :
+  (length (r_insts (fst (run_parse G script bytes))) <= length bytes / 4)%nat.
+Proof.
+  unfold run_parse.
+  pose proof (callbacks_bounded G (rec_consumer script) (fun s => length (r_insts s))) as H.
+  cbn [rec_consumer c_init c_fin c_header c_inst fst r_insts length] in H.
+  specialize (H (fun _ => le_n _) (fun _ => le_n _) (fun _ _ => le_n _) (fun _ _ => le_n _) bytes rec_init).
+  cbn [rec_init r_insts length] in H. apply Nat.div_le_lower_bound; lia.
+Qed.
+
+(** the linked grammar of this run *)
+Corollary real_parser_no_panic St (C : consumer St) bytes s0 p :
+  snd (parse Linked.G C bytes s0) <> Panic p.
+Proof. apply parse_no_panic. exact np_wf_real. Qed.
+
+Print Assumptions np_wf_real.
+Print Assumptions parse_inst_no_panic.
+Print Assumptions progress.
+Print Assumptions track_total.
+Print Assumptions parse_no_panic.
+Print Assumptions parse_inst_inv.
+Print Assumptions reads_stay_in_buffer.
+Print Assumptions inst_callbacks_bounded.
+Print Assumptions recorded_insts_bounded.
+Print Assumptions real_parser_no_panic.
